@@ -294,4 +294,20 @@ CHECKS["C32"] = dict(
     design_ref="DESIGN.md §4 C32",
 )
 
+CHECKS["C15"] = dict(
+    category='exploration',
+    technique='property-based output scan + tracer tokens over Hypothesis-generated template sets with metacharacter-rich data under every way autoescaping can be active',
+    text='Template text and identifiers are metacharacter-free; every data string and string literal is rich in < > " \' &, pre-escaped look-alikes and a unique token; programs combine every built-in filter (data-controlled arguments), operators ~ + * %, string methods, macros, caller, call/filter/set blocks, blocks with super()/self, recursive loops, includes, imports (escgen + sanitised tsets). Each case renders with autoescaping active in one of six modes (static; select_autoescape by name incl. upper-case extensions; string template; {% autoescape true %} regions; runtime flag; macros defined outside the region). Oracle: strict harness-side grammars for the markup urlize and xmlattr emit, tojson bracketed through the documented dumps policy and validated, any remaining raw < > " \' is a leak, plus an & neighbourhood rule for tracer tokens in programs that never cut strings. 22k cases quick, 240k thorough; 11/11 non-equivalent mutants killed incl. reverting F24 and F35; found F35, F47, F48, F49.',
+    note='Explicit safe marking is never generated; F48 (filter sections / block-set filters emit plain results of default/join/wordwrap/striptags raw) and F49 (blocks inside autoescape regions) are listed known findings excluded by construction and counted; over-escaping is invisible here by design (C16).',
+    design_ref="DESIGN.md §4 C15",
+)
+
+CHECKS["C16"] = dict(
+    category='exploration',
+    technique='metamorphic / differential property test: autoescape on then unescape-once must equal autoescape off, on escaping-neutral generated programs',
+    text="Three generators (escgen in neutral mode, C03's G-stmt after a conservative taint rewrite, C04/C05's tsets) with data rich in metacharacters and pre-escaped look-alikes; each case renders with autoescaping on (same six modes as C15) and off and requires unescape5(on) == off (a single-pass inverse of exactly the five entities MarkupSafe emits), the same exception class and the same partial output, across macro, call block, block reference, set block, filter section, recursive loop, include, import and module boundaries. 18k cases quick, 187k thorough; 9/9 non-equivalent mutants killed (return_buffer_contents, visit_AssignBlock, BlockReference.__call__, TemplateModule.__html__, Macro.__call__/_invoke, markup_join, join).",
+    note='Both sides run the current tree; the premise restrictions of DESIGN §4 C16 hold by construction; F5 (volatile ~ escapes a rendered fragment twice) and F55 (~ / join / |string over a TemplateModule escape the module body a second time) are listed known findings excluded by construction.',
+    design_ref="DESIGN.md §4 C16",
+)
+
 NOT_YET = "check not built yet in this session (see DESIGN.md §8 for the order of work)"
